@@ -25,6 +25,7 @@ RULE = ("cases: (codec, operation, input). Valid stream: byte strings of every l
         "2^64-1, 2^64); netstring lists of 0-5 strings; UEB dicts of 0-8 entries. Malformed stream: single-character "
         "substitutions, insertions, deletions, truncations, case changes, padding, non-canonical numerals, negative "
         "lengths, duplicated/reordered entries applied to valid encodings, and short random strings for int(). "
+        "Capability strings: 18 cap kinds x markers (none, ro., imm., doubled) x intact/damaged x deep_immutable on/off; whatever uri.from_string leaves undecoded (UnknownURI) must hand back exactly the given text. "
         "distinct_nontrivial = distinct (codec, op, input) on which the decoder ACCEPTS or the encoder succeeds.")
 META = {
     "title": "On-disk and wire encodings round-trip",
@@ -1109,6 +1110,103 @@ def run_recognition(ctx, B):
 
 
 
+# ---------------------------------------------------------------------------
+# capability strings: what is not decoded is handed back exactly as given
+# ---------------------------------------------------------------------------
+WRITEABLE_SCHEMES = (b"URI:SSK:", b"URI:MDMF:", b"URI:DIR2:", b"URI:DIR2-MDMF:")
+MUTABLE_RO_SCHEMES = (b"URI:SSK-RO:", b"URI:MDMF-RO:", b"URI:DIR2-RO:", b"URI:DIR2-MDMF-RO:")
+CAP_MARKERS = (b"", b"ro.", b"imm.", b"ro.ro.", b"imm.imm.", b"ro.imm.", b"imm.ro.")
+
+
+def make_caps(r):
+    from allmydata import uri
+    key, ueb, fp, wk = rbytes(r, 16), rbytes(r, 32), rbytes(r, 32), rbytes(r, 16)
+    k = r.randrange(1, 20)
+    n = r.randrange(k, 40)
+    size = r.choice([56, 1000, 2 ** 32, 2 ** 40 + 7, r.randrange(56, 2 ** 50)])
+    chk = uri.CHKFileURI(key, ueb, k, n, size)
+    lit = uri.LiteralFileURI(rbytes(r, r.randrange(0, 56)))
+    ssk = uri.WriteableSSKFileURI(wk, fp)
+    mdmf = uri.WriteableMDMFFileURI(wk, fp)
+    caps = [chk, chk.get_verify_cap(), lit, ssk, ssk.get_readonly(), ssk.get_verify_cap(),
+            mdmf, mdmf.get_readonly(), mdmf.get_verify_cap(),
+            uri.DirectoryURI(ssk), uri.ReadonlyDirectoryURI(ssk.get_readonly()), uri.DirectoryURIVerifier(ssk.get_verify_cap()),
+            uri.ImmutableDirectoryURI(chk), uri.ImmutableDirectoryURIVerifier(chk.get_verify_cap()), uri.LiteralDirectoryURI(lit),
+            uri.MDMFDirectoryURI(mdmf), uri.ReadonlyMDMFDirectoryURI(mdmf.get_readonly()), uri.MDMFDirectoryURIVerifier(mdmf.get_verify_cap())]
+    return [c.to_string() for c in caps]
+
+
+def cap_case(ctx, text, marker, deep, intact):
+    from allmydata import uri
+    full = marker + text
+    case = {"codec": "cap-string", "op": "from_string", "input": full.hex(), "text": full.decode("latin-1"), "deep_immutable": deep,
+            "marker": marker.decode(), "intact": intact}
+    try:
+        r = uri.from_string(full, deep_immutable=deep, name=u"c38")
+    except Exception:
+        ctx.case(None, kind="cap-raises")          # a refusal; which texts are refused is C15's subject
+        return
+    back = r.to_string()
+    opaque = isinstance(r, uri.UnknownURI)
+    ctx.case(("cap", full, deep) if not opaque else None, kind="cap-opaque" if opaque else "cap-typed")
+    single = marker in (b"", b"ro.", b"imm.")
+    can_be_mutable = can_be_writeable = not deep
+    if marker == b"imm.":
+        can_be_mutable = can_be_writeable = False
+    elif marker == b"ro.":
+        can_be_writeable = False
+    contradicted = single and intact and ((text.startswith(WRITEABLE_SCHEMES) and not can_be_writeable)
+                                          or (text.startswith(MUTABLE_RO_SCHEMES) and not can_be_mutable))
+    if opaque:
+        if back != full:
+            ctx.oracle_fail("cap-opaque-text-not-preserved",
+                            "uri.from_string(%r, deep_immutable=%s) did not decode the text (UnknownURI, error %s) but its to_string() is %r: the rejected text is read as a different value" % (
+                                full, deep, type(r.get_error()).__name__ if r.get_error() else None, back),
+                            case=case, expected=full.decode("latin-1"), observed=back.decode("latin-1"))
+        if contradicted and r.get_error() is None:
+            ctx.oracle_fail("cap-contradicted-marker-without-error", "uri.from_string(%r, deep_immutable=%s) is opaque but carries no error although the cap contradicts its marker/context" % (full, deep), case=case)
+        if single and intact and not contradicted:
+            ctx.oracle_fail("cap-intact-not-decoded", "uri.from_string(%r, deep_immutable=%s) did not decode an intact, permitted cap" % (full, deep), case=case)
+    else:
+        if contradicted:
+            ctx.oracle_fail("cap-contradicted-marker-decoded", "uri.from_string(%r, deep_immutable=%s) decoded a cap that contradicts its marker/context into %s" % (full, deep, type(r).__name__),
+                            case=case, expected="UnknownURI with an error", observed=type(r).__name__)
+        if intact and single and back != text:
+            ctx.oracle_fail("cap-roundtrip", "uri.from_string(%r).to_string() = %r" % (full, back), case=case, expected=text.decode("latin-1"), observed=back.decode("latin-1"))
+
+
+def run_caps(ctx):
+    """18 cap kinds x markers (none, ro., imm., doubled) x intact/damaged x deep_immutable on/off."""
+    rounds = ctx.n(2, 25)
+    for i in range(rounds):
+        r = ctx.rng("caps", i)
+        caps = make_caps(r)
+        for ci, text in enumerate(caps):
+            for marker in CAP_MARKERS:
+                for deep in (False, True):
+                    cap_case(ctx, text, marker, deep, True)
+                    # damaged: body character changed / cut / extended / scheme name altered
+                    m = r.randrange(5)
+                    body_at = text.index(b":", 4) + 1
+                    if m == 0 and len(text) > body_at:
+                        j = r.randrange(body_at, len(text))
+                        bad = text[:j] + bytes([r.choice(b"!189 AZ:")]) + text[j + 1:]
+                    elif m == 1:
+                        bad = text[:r.randrange(body_at, len(text) + 1) - 1] if len(text) > body_at else text[:-1]
+                    elif m == 2:
+                        bad = text + r.choice([b":", b"x", b":1", b" "])
+                    elif m == 3:
+                        bad = text[:body_at] + b"" + text[body_at + r.randrange(1, 4):]
+                    else:
+                        bad = text[:body_at]
+                    cap_case(ctx, bad, marker, deep, False)
+    for text in (b"", b"URI:", b"ro.", b"imm.", b"http://example/", b"x-tahoe-future-test-writeable:abc", b"x-tahoe-future-test-mutable:abc", b"URI:FUTURE:abc"):
+        for marker in CAP_MARKERS:
+            for deep in (False, True):
+                cap_case(ctx, text, marker, deep, False)
+
+
+
 def run(ctx):
     B = Batch(ctx)
     run_base32(ctx, B)
@@ -1119,6 +1217,7 @@ def run(ctx):
     run_lease(ctx, B)
     run_headers(ctx, B)
     run_recognition(ctx, B)
+    run_caps(ctx)
     B.flush()
 
 
